@@ -283,7 +283,15 @@ def run(tier, seed):
 
     def add(kind, items, fmt):
         for it in items:
-            violations.append({"key": f"{kind}:{fmt(it)}", "what": f"{kind} mismatch at {fmt(it)}", "case": {"kind": kind, "value": it}})
+            v = {"key": f"{kind}:{fmt(it)}", "what": f"{kind} mismatch at {fmt(it)}", "case": {"kind": kind, "value": it}}
+            if kind == "decode":
+                # a decoder that remembers earlier inputs gives this answer only after its siblings were decoded: the
+                # prefixes of the string first, or its zero-extended forms first (the sweep's own order)
+                b = bytes(it)
+                pre = [["d", b[:k]] for k in range(len(b))]
+                ext = [["d", b + bytes(k)] for k in (3, 2, 1)]
+                v["alt_cases"] = [{"kind": "sequence", "value": pre + [["d", b]]}, {"kind": "sequence", "value": ext + [["d", b]]}, {"kind": "sequence", "value": ext + pre + [["d", b]]}]
+            violations.append(v)
 
     # --- encode side
     if tier == "quick":
